@@ -249,5 +249,11 @@ def run(p, rep, tier):
     r4(p, rep)
     r5(p, rep)
     r6(p, rep)
+    # clauses shared with C02 / C12 whose violation surfaces as an internal exception type of an entry point
+    from . import c02, c12
+
+    c02.r6(p, rep)  # non-integer sizes are rejected by a guard, not by a failing conversion deep in the solver
+    c12.r7(p, rep)  # an exclusive end position used as a caret position trips the asserts of the error constructors
+    c12.r8(p, rep)  # a number test that disagrees with int() lets int() raise instead of the parser
     rep.assume("exceptions raised by third-party code (numpy, sympy) outside the wrapped call are not modelled")
     rep.info["undecided"] = "input-dependent assert statements and value-level validation; only the structural clauses R1-R6 are decided"
